@@ -1,6 +1,7 @@
 import asyncio
 from asyncio import Queue
 
+from rsocket.exceptions import RSocketTransportError
 from rsocket.frame import Frame
 from rsocket.transports.abstract_messaging import AbstractMessagingTransport
 
@@ -18,9 +19,12 @@ class WebsocketsTransport(AbstractMessagingTransport):
         pass
 
     async def consumer_handler(self, websocket):
-        async for message in websocket:
-            async for frame in self._frame_parser.receive_data(message, header_length=0):
-                await self._incoming_frame_queue.put(frame)
+        try:
+            async for message in websocket:
+                async for frame in self._frame_parser.receive_data(message, header_length=0):
+                    await self._incoming_frame_queue.put(frame)
+        finally:
+            self._incoming_frame_queue.put_nowait(RSocketTransportError())
 
     async def producer_handler(self, websocket):
         while True:
